@@ -123,7 +123,9 @@ func (l *Lexer) Next() *Token {
 		}
 		return tok.setType(STRING_LIT).setLiteral(literal)
 	case 0:
-		return tok.setType(EOF)
+		if l.pos >= len(l.input) {
+			return tok.setType(EOF)
+		}
 	}
 	if isLetter(l.cur) {
 		literal := l.readIdent()
